@@ -138,6 +138,7 @@ class C06:
             obs["deliv_o"] = [d for d in o.deliveries]
             obs["rx_o"] = [f for _, f in o.received]
             obs["rx_r"] = [f for _, f in r.received]
+            obs["rx_r_t"] = [(t_, f) for t_, f in r.received]
             obs["tables"] = (o.peek_sessions(), r.peek_sessions())
             obs["live1"] = w.liveness_problems()
             obs["data"] = bytes(data)
@@ -193,6 +194,36 @@ class C06:
               (other[0][3], other[0][4], len(other[0][5] or b"")), site)
         if fault is None and not completed:
             V("baseline-not-delivered", "fault-free transfer was not delivered", site)
+        # "the standard's timeout for the state they are in": a responder that waits for the NEXT data packet inside a window
+        # (it has accepted an in-sequence data packet that did not complete the window it granted) gives up after T1 = 0.75 s
+        if p["mode"] == "rts" and fault is not None and not completed:
+            dt_pf, cm_pf = (R.FD_DT_PF, R.FD_CM_PF) if fd else (R.TP_DT_PF, R.TP_CM_PF)
+            ev = [(t_, 0, "rx", f_.can_id, bytes(f_.data)) for (t_, f_) in obs.get("rx_r_t", [])]
+            ev += [(e.t, 1, "tx", e.can_id, bytes(e.data)) for e in obs["log1"] if e.node == "R"]
+            expected = win_end = None
+            waiting = None
+            for (t_, _, way, cid, dat) in sorted(ev, key=lambda x: (x[0], x[1])):
+                ff = R.id_fields(cid)
+                if way == "tx" and ff["pf"] == cm_pf and ff["ps"] == SA_O and len(dat) >= 8:
+                    ctrl = (dat[0] & 0xF) if fd else dat[0]
+                    if ctrl == (R.FD_CTS if fd else R.CTS):
+                        n_, nxt_ = (dat[7], R.from_le24(dat[4:7])) if fd else (dat[1], dat[2])
+                        waiting = None              # (any CTS, also a hold: the responder is in its after-CTS state, T2)
+                        if n_ > 0:
+                            expected, win_end = nxt_, nxt_ + n_ - 1
+                    elif ctrl == (R.FD_ABORT if fd else R.ABORT):
+                        lim = 0.75 + max(p["eps"]) + 2e-5 + p.get("tx_time", 0.0) * 3 + 1e-3
+                        if waiting is not None and t_ - waiting > lim:
+                            V("gave-up-late", "the responder accepted a data packet inside a window at t=%.4f and sent its time-out "
+                              "abort %.3f s later (T1 = 0.75 s for that state)" % (waiting - 1000, t_ - waiting), site + "|resp-T1")
+                        break
+                    else:
+                        waiting = None
+                elif way == "rx" and ff["pf"] == dt_pf and ff["sa"] == SA_O and ff["ps"] == SA_R and expected is not None:
+                    seq = R.from_le24(dat[1:4]) if fd else dat[0]
+                    if seq == expected and expected <= win_end:
+                        expected += 1
+                        waiting = t_ if expected <= win_end else None
         # tables empty at the bound
         to, tr = obs["tables"]
         if to is not None and any(to):
